@@ -14,6 +14,13 @@ def configs(tier, seed):
         for branch in ("pre", "fn"):
             cfgs.append(dict(kind="cut", n=n, k=k, branch=branch, clusters=2 if n < 4 else 3, logic="fresh",
                              weight=(n ** n) * 40, timeout_ms=60000))
+    # the real KNN fit() end to end: each candidate k must be scored on its own predictions for the validation samples
+    # (with their identifiers when distances are pre-computed), and the kept k is the least arg-max of those scores
+    for n, nv, mk, labs, vl, branch, ival in ([(3, 1, 2, [0, 1, 0], [1], "pre", [2]), (3, 1, 2, [0, 1, 0], [1], "fn", None)] if tier == "quick" else
+                                             [(3, 1, 2, [0, 1, 0], [1], "pre", [2]), (3, 1, 2, [0, 1, 0], [1], "fn", None),
+                                              (3, 2, 2, [0, 1, 1], [1, 0], "pre", [2, 1]), (4, 1, 2, [0, 1, 1, 0], [1], "pre", [3])]):
+        cfgs.append(dict(kind="e2e", model="knn", n=n, nv=nv, max_k=mk, labels=labs, vlabels=vl, branch=branch, ival=ival,
+                         logic="fresh", weight=(n ** n) * 500 * mk, deadline_s=2400))
     # the training samples stand for permuted rows of a larger distance table (Node.idx != position)
     for n, k, idx in ([(2, 1, [2, 0]), (3, 1, [3, 0, 2])] if tier == "quick" else
                       [(2, 1, [2, 0]), (3, 1, [3, 0, 2]), (3, 2, [1, 3, 0]), (4, 1, [2, 4, 0, 1])]):
